@@ -109,23 +109,63 @@ def implicit_relabel(rnd):
                     out_.append((name, n, (i, j), dense(SB[(i, j, n)], shape), dense(SA[(lab(i), lab(j), n)], shape)))
     return dict(hermitian=herm, complex=P["cplx"], parts=parts, perm=perm, fd=list(fd), N=N), out_
 
+def implicit_scale(rnd):
+    """implicit mode (direct or KPM solver): the whole Hamiltonian in other energy units (times a power of two, `atol` in the same units) gives the
+    same U and U_inv and H_tilde in those units"""
+    import implicit_corr as IC
+    P = IC.gen(rnd)
+    kpm = P["herm"] and rnd.random() < 0.6
+    # (the KPM solver reads its option `atol` also as an energy tolerance of the explicit part: units in which the levels stay far apart on that scale)
+    c = 2.0 ** (rnd.choice([-13, -10, 12]) if kpm else rnd.choice([-30, -13, 17]))
+    parts = P["parts"]; nb = len(parts); N = P["N"]; R, L, herm = P["R"], P["L"], P["herm"]
+    def basis(idx): return R[:, idx] if herm else (R[:, idx], L[:, idx])
+    kw = dict(subspace_eigenvectors=[basis(p) for p in parts], hermitian=herm)
+    if kpm:
+        kw.update(direct_solver=False, solver_options={"atol": 1e-6})
+        if rnd.random() < 0.5: kw["solver_options"]["auxiliary_vectors"] = R[:, [P["dA"]]]
+    else: kw["fully_diagonalize"] = P["fd"]
+    def ham(f):
+        H = {(0,): sparse.csr_array(P["H0"] * f), (1,): sparse.csr_array(P["H1"] * f)}
+        if P["H2"] is not None: H[(2,)] = sparse.csr_array(P["H2"] * f)
+        return H
+    A = block_diagonalize(ham(1.0), **kw)
+    B = block_diagonalize(ham(c), atol=1e-12 * c, **kw)
+    def dense(v, shape):
+        if v is zero: return np.zeros(shape, dtype=complex)
+        if v is one: return np.eye(shape[0], dtype=complex)
+        if hasattr(v, "toarray"): v = v.toarray()
+        if hasattr(v, "matmat") and not isinstance(v, np.ndarray): v = v @ np.eye(v.shape[1])
+        return np.asarray(v, dtype=complex).reshape(shape)
+    size = lambda b: N if b == nb else len(parts[b])
+    out_ = []
+    for name, SA, SB in zip(("H_tilde", "U", "U_inv"), A, B):
+        for n in range(0, 4):
+            for i in range(nb + 1):
+                for j in range(nb + 1):
+                    if i == nb and j == nb: continue
+                    if name == "H_tilde" and (i == nb or j == nb): continue
+                    shape = (size(i), size(j))
+                    out_.append((name, n, (i, j), dense(SB[(i, j, n)], shape) / (c if name == "H_tilde" else 1.0), dense(SA[(i, j, n)], shape)))
+    return dict(hermitian=herm, complex=P["cplx"], parts=parts, N=N, solver="kpm" if kpm else "direct", factor=c), out_
+
 def main(seed, ncases, driver, out):
     failures = []; dist = {}; samples = []; evals = 0; distinct = 0; worst = 0.0
     for c in range(ncases):
         if skip(c): continue
         rnd = case_rnd(seed, c); tr = TRANSFORMS[c % len(TRANSFORMS)]; exact = (c % 7 == 3)
-        if c % 24 in (5, 17):
-            # implicit mode: the explicit subspaces in another order
-            try: res = implicit_relabel(rnd)
+        if c % 24 in (5, 17, 11):
+            # implicit mode: the explicit subspaces in another order; the whole Hamiltonian in other units
+            tname = "implicit-relabel" if c % 24 != 11 else "implicit-scale"
+            try: res = implicit_relabel(rnd) if c % 24 != 11 else implicit_scale(rnd)
             except Exception as e:
-                failures.append({"case": c, "transform": "implicit-relabel", "kind": "implementation-raises", "error": type(e).__name__ + ": " + str(e)[:200]}); continue
+                failures.append({"case": c, "transform": tname, "kind": "implementation-raises", "error": type(e).__name__ + ": " + str(e)[:200]}); continue
             if res is None: continue
-            dsc, cmpl = res; dist["implicit-relabel"] = dist.get("implicit-relabel", 0) + 1; bad = None
+            dsc, cmpl = res; dist[tname] = dist.get(tname, 0) + 1; bad = None
             for name, n, blk, got, want in cmpl:
                 evals += 1; err = float(np.abs(got - want).max()) if got.size else 0.0; sc = 1 + (float(np.abs(want).max()) if want.size else 0); worst = max(worst, err / sc)
                 if err > 1e-8 * sc: bad = bad or {"kind": "relation-fails", "series": name, "order": [n], "block": list(blk), "abs_err": err}
             distinct += 1
-            if bad: failures.append(dict({"case": c, "transform": "implicit-relabel", "problem": dsc}, **bad))
+            if bad: failures.append(dict({"case": c, "transform": tname, "problem": dsc}, **bad))
             continue
         hermitian = rnd.random() < 0.75
         needk = 2 if tr in ("permute-parameters", "merge-parameters") else (1 if tr in ("pad-parameter", "power-substitution") else None)
